@@ -161,16 +161,21 @@ def build_factory_pc(n):
       external_type=getattr(pcm.ExternalType, n.get('ext', 'INTERNAL')))
 
 
-def add_node(sel, n):
-  """Add node `n` (and its subtree) to every space selected by `sel`."""
+def add_node(sel, n, probe=None):
+  """Add node `n` (and its subtree) to every space selected by `sel`.  `probe()` (if given) is called
+  after every builder call: a space may be READ at any point of its construction."""
   if n['call'] == 'factory':
     pc = build_factory_pc(n)
     sel._add_parameters([pc])                  # pylint: disable=protected-access
+    if probe:
+      probe()
     return
   _call_builder(sel, n)
+  if probe:
+    probe()
   name = created_name(n)
   for vals, ch in n.get('children', []):
-    add_node(sel.select(name, list(vals)), ch)
+    add_node(sel.select(name, list(vals)), ch, probe)
 
 
 def build_pc(n):
@@ -183,11 +188,21 @@ def build_pc(n):
   return ss.parameters[0]
 
 
-def build_space(nodes):
+def build_space(nodes, probed=False):
+  """`probed`: read the space (is_conditional, contains, parameter listing, default walk) after every
+  builder call - reads must not change what the finished space answers."""
   from vizier._src.pyvizier.shared import parameter_config as pcm
   ss = pcm.SearchSpace()
+
+  def probe():
+    for f in (lambda: ss.is_conditional, lambda: ss.contains({}), lambda: [p.name for p in ss.parameters],
+              lambda: ss.num_parameters(), lambda: ss.parameter_names):
+      try:
+        f()
+      except Exception:  # pylint: disable=broad-except
+        pass
   for n in nodes:
-    add_node(ss.root, n)
+    add_node(ss.root, n, probe if probed else None)
   return ss
 
 
